@@ -28,6 +28,11 @@ JSONClasses == {"not_json", "wrong_types", "huge_number", "deep_nesting", "compo
 Scenarios ==
   [ep : {"pair-setup"}, st : {"fresh", "afterM2", "afterM4"}, cls : TLVClasses]
   \cup [ep : {"pair-verify"}, st : {"fresh", "afterV2"}, cls : TLVClasses]
+  \* not malformed at all: a CORRECT start request, sent after a second connection from the same remote address and port
+  \* (to another local address of the accessory) was opened and closed.  The state of a connection belongs to that
+  \* connection (guard session_keyed_by_connection); keyed by the remote address alone, the twin replaces and then
+  \* removes it, and the handler of the next request finds nothing.
+  \cup [ep : {"pair-setup", "pair-verify"}, st : {"fresh"}, cls : {"twin_closed"}]
   \cup [ep : {"pairings"}, st : {"unverified", "verified"}, cls : TLVClasses \ {"short_enc", "wrong_tag", "inner_damaged"}]
   \cup [ep : {"characteristics-put", "characteristics-get", "resource", "accessories", "identify"}, st : {"unverified", "verified"}, cls : JSONClasses]
 
@@ -38,6 +43,7 @@ Init == /\ sc \in Scenarios /\ phase = "send"
 
 \* does this input reach code that panics?
 Panics ==
+  \/ sc.cls = "twin_closed" /\ ~Guard("session_keyed_by_connection")
   \/ sc.cls = "short_enc" /\ sc.st \in {"afterM4", "afterV2"} /\ ~Guard("enc_length_checked")
   \/ sc.cls \in {"wrong_tag", "garbage"} /\ sc.st \in {"afterM4", "afterV2"} /\ sc.cls = "wrong_tag" /\ ~Guard("aead_failure_answered")
   \/ sc.cls = "composite_twice" /\ sc.ep = "characteristics-put" /\ sc.st = "verified" /\ ~Guard("values_comparable")
@@ -46,10 +52,11 @@ Panics ==
 Send == /\ phase = "send"
         /\ IF Panics
            THEN reply' = "dropped" /\ open' = FALSE /\ UNCHANGED step        \* net/http recovers the panic and drops the connection
-           ELSE /\ reply' = (IF sc.ep = "identify" \/ (sc.cls = "empty_body" /\ sc.ep \in {"accessories", "characteristics-get"}) THEN "ok" ELSE "error")
+           ELSE /\ reply' = (IF sc.cls = "twin_closed" \/ sc.ep = "identify" \/ (sc.cls = "empty_body" /\ sc.ep \in {"accessories", "characteristics-get"}) THEN "ok" ELSE "error")
                 /\ open' = TRUE
                 \* unknown method / step leave the machine where it was (no reset); everything else resets it
-                /\ step' = IF Pairing /\ sc.cls \in {"unknown_method", "unknown_step"} THEN step ELSE "Waiting"
+                /\ step' = IF Pairing /\ sc.cls \in {"unknown_method", "unknown_step"} THEN step
+                           ELSE IF sc.cls = "twin_closed" THEN "Mid" ELSE "Waiting"
         /\ phase' = "same" /\ UNCHANGED <<sc, alive, rejected, sameOK, newOK>>
 
 \* a correct handshake on the same connection: a start in mid-exchange is rejected once and resets the machine
